@@ -1,9 +1,9 @@
 SPECIFICATION Spec
 CONSTANTS
-  N = 4
+  N = 5
   Mode = "complete"
   Overlap = FALSE
-  Vals = {1, 2, 3}
+  Vals = {1, 2}
 INVARIANTS
   SizesAddUp
   TreeShape
